@@ -37,6 +37,15 @@ def p_field(x):
                 return 'after reading the names of the field, alternative %r reports names %r' % (str(alt), sorted(alt.names))
     if sorted(r.names) != G.names(f) or _deps.rel_tree(r) != G.tree(f) or str(r) != canonical:
         return 'reading names changes the parsed field %r' % text
+    # evaluating the field against candidate packages is looking at it: structure, spelling and equality stay
+    for n in G.names(f)[:4] + ['zz']:
+        for cand in (None, '1.0', '0:1.2', '9'):
+            try:
+                r.matches(n, cand)
+            except Exception:  # noqa  (architecture restrictions are not evaluated)
+                pass
+    if _deps.rel_tree(r) != G.tree(f) or str(r) != canonical or r != r2 or _deps.rel_tree(deps.parse_depends(str(r))) != G.tree(f):
+        return 'after the field was matched against candidates it is %r, printed %r; it was parsed from %r' % (_deps.rel_tree(r), str(r), text)
     # a caller changing what it got does not change what the next caller gets
     r.names.add('zz-added')
     try:
